@@ -32,6 +32,15 @@ def observe(case):
     from decaylanguage import DecFileParser
     p = DecFileParser.from_string(text)
     mode = k.get("reg_mode", "normal")
+    if k.get("twin_models"):
+        # a shallow copy of the parser: what is registered on one of the two objects is not registered on the other
+        import copy as _copy
+        twin = _copy.copy(p)
+        if mode == "registered_on_the_copy":
+            twin.load_additional_decay_models(*k["twin_models"])
+        else:                                   # "the_copy_is_parsed": registered on the original, the copy is parsed
+            p.load_additional_decay_models(*k["twin_models"])
+            p = twin
     if registered:
         # the names are registered before parsing - in one or two calls, possibly after the grammar has
         # already been looked at (grammar() / grammar_info() are public and load it)
@@ -153,6 +162,13 @@ def make_cases(rng, deep):
             c = case(w, listed=listed, params=rng.choice([[], ["0.5"], ["abc"]]), split_registration=bool(i % 2),
                      reg_mode=["normal", "after_grammar", "after_grammar_info", "parse_twice", "after_failed_parse"][len(cases) % 5])
             c["context"] = "registered names " + ",".join(reg) + " (" + c["reg_mode"] + ")"
+        # the same names registered on a shallow copy of the parser only (or on the original, the copy being parsed):
+        # for the parser that is parsed they are unknown words
+        for w in reg[:2]:
+            if is_label(w, models):
+                c = case(w, listed=models, twin_models=reg, params=rng.choice([[], ["0.5"]]),
+                         reg_mode=["registered_on_the_copy", "the_copy_is_parsed"][len(cases) % 2])
+                c["context"] = "registered on the other of two shallow copies: " + ",".join(reg) + " (" + c["reg_mode"] + ")"
         # a published name that has a registered prefix / extension must still be itself
         for w in reg:
             for m in models:
